@@ -61,6 +61,12 @@ def main():
     meta['needs_to_manifest'] = open(notes).read()[:1500] if os.path.exists(notes) else ''
     dst = os.path.join(V, 'seeded', '%s-%s' % (pid, k))
     if confirmed:
+        try:
+            old = json.load(open(os.path.join(dst, 'meta.json')))
+            for kk, vv in old.get('checks', {}).items():
+                meta['checks'].setdefault(kk, vv)
+        except Exception:
+            pass
         shutil.rmtree(dst, ignore_errors=True)
         os.makedirs(dst)
         shutil.copy(patch, os.path.join(dst, 'patch.diff'))
